@@ -91,7 +91,7 @@ package registry
 //@   ensures other-maps-kept: otherMapsKept(r.imports)
 //@   ensures{C10,C11} wf: wfK(r)
 //@   ensures result-has-pkg: imprt != nil ==> imprt.pkg != nil
-//@   ensures{C11} alias-kept-without-conflict: canon(pkg) != r.moqPkgPath && !old(dom(r.imports, canon(pkg))) && forall(string(k), old(dom(r.imports, k)) ==> old(qual(r.imports[k])) != newQual(r, pkg)) ==> imprt.Alias == r.aliases[canon(pkg)] && forall((*Package)(p), old(allocated(p)) ==> p.Alias == old(p.Alias))
+//@   ensures{C11,C15,C16} alias-kept-without-conflict: canon(pkg) != r.moqPkgPath && !old(dom(r.imports, canon(pkg))) && forall(string(k), old(dom(r.imports, k)) ==> old(qual(r.imports[k])) != newQual(r, pkg)) ==> imprt.Alias == r.aliases[canon(pkg)] && forall((*Package)(p), old(allocated(p)) ==> p.Alias == old(p.Alias))
 
 //@ func registry.Registry.resolveImportConflict
 //@   props C11
